@@ -329,11 +329,12 @@ func runTask(t *shovel.Task, c *jrpc2.Client, batch uint64, cn *counters, plan s
 			}
 			localHash = h
 		}
-		head, _, err := c.Latest(ctx, url, local)
+		head, headHash, err := c.Latest(ctx, url, local)
 		if err != nil {
 			cn.add("latest error", 1)
 			continue
 		}
+		fold(headHash)
 		if head <= local {
 			continue
 		}
@@ -353,6 +354,7 @@ func runTask(t *shovel.Task, c *jrpc2.Client, batch uint64, cn *counters, plan s
 			cn.add("insert error", 1)
 			continue
 		}
+		fold(headHash) // Converge hands the head hash to Task.update only now
 		// (Converge reads the last block's number and hash here; the harness
 		// leaves block data to the repository's code and asks the node again)
 		local, localHash = local+delta, nil
@@ -364,7 +366,8 @@ func runTask(t *shovel.Task, c *jrpc2.Client, batch uint64, cn *counters, plan s
 // the head cache from several goroutines
 func scenarioNumHash(r *rng, rounds int, cn *counters) {
 	for round := 0; round < rounds; round++ {
-		nh := jrpc2.VerifRaceNumHash(r.rng(1, 5))
+		nh := jrpc2.VerifRaceNumHash(r.rng(3, 8))
+		var ctr atomic.Uint64
 		var wg sync.WaitGroup
 		for g := 0; g < r.rng(3, 8); g++ {
 			kind := g % 3
@@ -373,11 +376,17 @@ func scenarioNumHash(r *rng, rounds int, cn *counters) {
 				defer wg.Done()
 				for k := uint64(1); k < 40; k++ {
 					switch kind {
-					case 0:
-						nh.VerifRaceUpdate(k, []byte{byte(k), 2, 3})
+					case 0: // strictly increasing numbers: every call overwrites the cached hash in place
+						n := ctr.Add(1)
+						hh := make([]byte, 32)
+						hh[0], hh[31] = byte(n), byte(n>>8)
+						nh.VerifRaceUpdate(n, hh)
 					case 1:
-						if _, _, ok := nh.VerifRaceGet(context.Background(), k/2); ok {
+						if _, h, ok := nh.VerifRaceGet(context.Background(), k/2); ok {
 							cn.add("head cache hit", 1)
+							fold(h)
+							time.Sleep(20 * time.Microsecond)
+							fold(h)
 						}
 					default:
 						if k%13 == 0 {
@@ -400,17 +409,27 @@ func scenarioLatest(r *rng, rounds int, cn *counters) {
 			nd.failPoll[k] = true
 		}
 		c := jrpc2.New(nd.url()).WithMaxReads(3).WithPollDuration(200 * time.Microsecond)
+		var stop atomic.Bool
+		go func() { // the head keeps growing: the poller keeps updating the head cache
+			for !stop.Load() {
+				time.Sleep(150 * time.Microsecond)
+				nd.grow(1)
+			}
+		}()
 		var wg sync.WaitGroup
 		for g := 0; g < r.rng(3, 6); g++ {
 			wg.Add(1)
 			go func() {
 				defer wg.Done()
 				for k := 0; k < 25; k++ {
-					_, _, err := c.Latest(context.Background(), nd.url(), uint64(90+k/5))
+					_, h, err := c.Latest(context.Background(), nd.url(), uint64(90+k/5))
 					if err != nil {
 						cn.add("latest error", 1)
 					} else {
 						cn.add("latest ok", 1)
+						fold(h)
+						time.Sleep(50 * time.Microsecond)
+						fold(h)
 					}
 					_ = c.NextURL()
 					time.Sleep(100 * time.Microsecond)
@@ -418,8 +437,22 @@ func scenarioLatest(r *rng, rounds int, cn *counters) {
 			}()
 		}
 		wg.Wait()
+		stop.Store(true)
 		nd.close()
 	}
+}
+
+// sink folds the bytes a caller of Latest / NumHash.get was handed into a
+// checksum: the caller of Client.Latest (Task.Converge) keeps the head hash and
+// reads it later, after every lock inside the client has been released.
+var sink atomic.Uint64
+
+func fold(h []byte) {
+	var x uint64
+	for _, b := range h {
+		x = x*131 + uint64(b)
+	}
+	sink.Add(x)
 }
 
 func must(err error) {
